@@ -295,7 +295,9 @@ def check_limit_order(ctx):
     for a in ("x", "y"):
         lims = [i for i, e in calls if e["name"].endswith(".set_%slim" % a)]
         ticks = [(i, e) for i, e in calls if e["name"].endswith(".set_%sticks" % a)]
-        ctx.need(lims, "%s: no call of set_%slim found" % (site, a))
+        if not lims:
+            ctx.undecided_item("C17.5", site, "no call of set_%slim found" % a)
+            continue
         late = [(i, e) for i, e in ticks if i > min(lims)]
         ctx.ob("C17.5", site, not late, "-%slim is applied after -%sticks (set_%sticks widens the view to show every tick)" % (a, a, a),
                loc=prog.loc(m, late[0][1]["node"]) if late else None,
